@@ -55,7 +55,7 @@ Proof.
     destruct (vn_stmt (push c0) s) as [r c2] eqn:Ev. destruct (decl_stmt vis s) as [ok vis1] eqn:Ed. cbn [fst snd] in *.
     destruct r; cbn [pok] in E1; subst ok; try (cbn; split; [reflexivity|discriminate]).
     destruct f as [f'|]; cbn [fst snd]; [|split; [reflexivity|intros _; exact Hr]].
-    destruct (H f' eq_refl c2 vis1 (E2 eq_refl)) as [F1 _]. split; [exact F1|intros _; exact Hr].
+    destruct (H f' eq_refl (push c0) vis (rep_push _ _ Hr)) as [F1 _]. split; [exact F1|intros _; exact Hr].
   - (* for *) destruct i as [[[t x] ini]|]; cbn [fst snd].
     + destruct (vn_add_spec (push c0) vis x (rep_push _ _ Hr)) as [A B]. destruct (mem x vis) eqn:E.
       * specialize (B eq_refl). destruct (vn_add (push c0) x) as [r c2]. cbn [fst] in B.
